@@ -33,9 +33,11 @@ Property theorems only (helper lemmas: `VncModel/Wire/*Lemmas.lean`).
 * `lengths_match*`             "every length field matches the bytes that follow": parse ∘ serialise = id.
 * `rects_inside_*`             emitted rectangles lie inside the region rectangle they come from, hence
                                inside the (announced) framebuffer when the region does.
+* `only_advertised_current`    every capability flag set after any SetEncodings history is justified by the
+                               LAST message's list; the two carry-overs (sticky preferred encoding,
+                               enableExtendedClipboard) are explicit.
 * `only_advertised*`           every encoding / pseudo-encoding of a predicted update is Raw or was listed by
-                               the client in some SetEncodings message (capability invariant over all
-                               SetEncodings histories).
+                               the client (history form of the invariant, over all SetEncodings histories).
 * `serverinit_real`            the ServerInit the model demands carries the real size, pixel format and
                                name, with a name length equal to the bytes that follow.
 
@@ -297,6 +299,75 @@ theorem only_advertised_caps (g : SrvCfg) (hist : List (List Nat)) :
 
 example : (capsAfter {} [[rfbEncodingCopyRect], [rfbEncodingHextile, rfbEncodingLastRect]]).preferred
     = some rfbEncodingHextile := by decide
+
+theorem prefPixel_capsAfter (g : SrvCfg) (hist : List (List Nat)) : PrefPixel (capsAfter g hist) := by
+  induction hist with
+  | nil => intro p hp; simp [capsAfter] at hp
+  | cons encs older ih => exact prefPixel_setEncodings g _ encs ih
+
+/-- **The CURRENT list decides**: after any history of SetEncodings messages, every capability flag
+that is set is justified by the LAST message's list (each message resets the flags).  The two
+documented carry-overs are explicit: the preferred encoding may be the one in use before the message
+(only when it is not in the list, i.e. the list names no pixel encoding — `lastPreferredEncoding`),
+and `enableExtendedClipboard` is not covered (the handler never resets it). -/
+theorem only_advertised_current (g : SrvCfg) (older : List (List Nat)) (encs : List Nat) :
+    let k := capsAfter g (encs :: older)
+    (k.useCopyRect = true → rfbEncodingCopyRect ∈ encs) ∧
+    (k.useNewFBSize = true → rfbEncodingNewFBSize ∈ encs ∨ rfbEncodingExtDesktopSize ∈ encs) ∧
+    (k.useExtDesktopSize = true → rfbEncodingExtDesktopSize ∈ encs) ∧
+    (k.cursorShape = true → rfbEncodingXCursor ∈ encs ∨ rfbEncodingRichCursor ∈ encs) ∧
+    (k.cursorShape = true → k.richCursor = false → rfbEncodingXCursor ∈ encs) ∧
+    (k.richCursor = true → rfbEncodingRichCursor ∈ encs) ∧
+    (k.cursorPos = true → rfbEncodingPointerPos ∈ encs) ∧
+    (k.lastRect = true → rfbEncodingLastRect ∈ encs) ∧
+    (k.led = true → rfbEncodingKeyboardLedState ∈ encs) ∧
+    (k.supMsgs = true → rfbEncodingSupportedMessages ∈ encs) ∧
+    (k.supEncs = true → rfbEncodingSupportedEncodings ∈ encs) ∧
+    (k.identity = true → rfbEncodingServerIdentity ∈ encs) ∧
+    (∀ p, k.preferred = some p →
+      p ∈ encs ∨ p = rfbEncodingRaw ∨ (capsAfter g older).preferred = some p) := by
+  intro k
+  have hpp := prefPixel_capsAfter g older
+  have a : Adv (encs ++ carry (capsAfter g older)) k := adv_setEncodings_current g _ encs
+  have strip : ∀ e, e ≠ rfbEncodingExtendedClipboard → isPixelEncoding e = false →
+      e ∈ encs ++ carry (capsAfter g older) → e ∈ encs := by
+    intro e h1 h2 he
+    rcases List.mem_append.mp he with h | h
+    · exact h
+    · exact absurd h (not_mem_carry _ hpp e h1 h2)
+  refine ⟨fun h => strip _ (by decide) (by decide) (a.copyRect h),
+    fun h => (a.newFBSize h).imp (strip _ (by decide) (by decide)) (strip _ (by decide) (by decide)),
+    fun h => strip _ (by decide) (by decide) (a.extDesktop h),
+    fun h => (a.cursorShape h).imp (strip _ (by decide) (by decide)) (strip _ (by decide) (by decide)),
+    fun h h2 => strip _ (by decide) (by decide) (a.xCursor h h2),
+    fun h => strip _ (by decide) (by decide) (a.richCursor h),
+    fun h => strip _ (by decide) (by decide) (a.cursorPos h),
+    fun h => strip _ (by decide) (by decide) (a.lastRect h),
+    fun h => strip _ (by decide) (by decide) (a.led h),
+    fun h => strip _ (by decide) (by decide) (a.supMsgs h),
+    fun h => strip _ (by decide) (by decide) (a.supEncs h),
+    fun h => strip _ (by decide) (by decide) (a.identity h), ?_⟩
+  intro p hp
+  rcases a.preferred p hp with h | h
+  · exact Or.inr (Or.inl h)
+  · rcases List.mem_append.mp h with h | h
+    · exact Or.inl h
+    · -- carried: the previous preferred encoding (the extended-clipboard number is no pixel encoding)
+      have hpix := prefPixel_capsAfter g (encs :: older) p hp
+      unfold carry at h
+      simp only [List.mem_append, Option.mem_toList] at h
+      rcases h with h | h
+      · split at h
+        · simp only [List.mem_singleton] at h
+          rw [h] at hpix
+          exact absurd hpix (by decide)
+        · simp at h
+      · exact Or.inr (Or.inr h)
+
+example : (capsAfter {} [[rfbEncodingNewFBSize, rfbEncodingRaw], [rfbEncodingExtDesktopSize]]).useExtDesktopSize
+    = false := by decide
+example : (capsAfter {} [[rfbEncodingCopyRect], [rfbEncodingHextile]]).preferred = some rfbEncodingHextile := by
+  decide
 
 /-- **Only advertised encodings are used**: every encoding number of every rectangle the model
 predicts for an update is Raw or occurs in the client's SetEncodings history — pseudo-rectangles,
